@@ -165,6 +165,11 @@ func (b *ASTBuilder) buildNode(tsNode *sitter.Node) *Node {
 	case "identifier":
 		return b.buildName(tsNode)
 	case "integer", "float", "string", "concatenated_string", "true", "false", "none":
+		// An f-string is a `string` node with `interpolation` children; its
+		// expressions must stay visible to the analyses.
+		if b.hasInterpolation(tsNode) {
+			return b.buildFormattedString(tsNode)
+		}
 		return b.buildConstant(tsNode)
 	case "formatted_string", "interpolation":
 		return b.buildFormattedString(tsNode)
@@ -1410,27 +1415,51 @@ func (b *ASTBuilder) buildConstant(tsNode *sitter.Node) *Node {
 	return node
 }
 
+// hasInterpolation reports whether a string (or one part of a concatenated
+// string) contains an f-string interpolation
+func (b *ASTBuilder) hasInterpolation(tsNode *sitter.Node) bool {
+	childCount := int(tsNode.ChildCount())
+	for i := 0; i < childCount; i++ {
+		child := tsNode.Child(i)
+		if child == nil {
+			continue
+		}
+		if child.Type() == "interpolation" {
+			return true
+		}
+		if child.Type() == "string" && b.hasInterpolation(child) {
+			return true
+		}
+	}
+	return false
+}
+
 // buildFormattedString builds a formatted string (f-string) node
 func (b *ASTBuilder) buildFormattedString(tsNode *sitter.Node) *Node {
 	node := NewNode(NodeJoinedStr)
 	node.Location = b.getLocation(tsNode)
+	b.addFormattedParts(node, tsNode)
+	return node
+}
 
+// addFormattedParts appends the literal parts and the interpolated expressions
+// of tsNode (a string, a concatenated string, an interpolation or a format
+// specifier) to the JoinedStr node
+func (b *ASTBuilder) addFormattedParts(node *Node, tsNode *sitter.Node) {
+	if tsNode.Type() == "interpolation" || tsNode.Type() == "format_expression" {
+		b.addInterpolation(node, tsNode)
+		return
+	}
 	childCount := int(tsNode.ChildCount())
 	for i := 0; i < childCount; i++ {
 		child := tsNode.Child(i)
 		if child != nil {
 			switch child.Type() {
-			case "interpolation":
-				// Extract the expression inside the interpolation
-				exprCount := int(child.ChildCount())
-				for j := 0; j < exprCount; j++ {
-					exprChild := child.Child(j)
-					if exprChild != nil && exprChild.Type() != "{" && exprChild.Type() != "}" {
-						fmtValue := NewNode(NodeFormattedValue)
-						fmtValue.Value = b.buildNode(exprChild)
-						node.AddChild(fmtValue)
-					}
-				}
+			case "interpolation", "format_expression":
+				b.addInterpolation(node, child)
+			case "string":
+				// Part of a concatenated string
+				b.addFormattedParts(node, child)
 			case "string_content":
 				// Regular string content
 				strNode := NewNode(NodeConstant)
@@ -1439,8 +1468,32 @@ func (b *ASTBuilder) buildFormattedString(tsNode *sitter.Node) *Node {
 			}
 		}
 	}
+}
 
-	return node
+// addInterpolation appends the expression of one `{...}` replacement field,
+// and the expressions nested in its format specifier
+func (b *ASTBuilder) addInterpolation(node *Node, interp *sitter.Node) {
+	exprCount := int(interp.ChildCount())
+	for j := 0; j < exprCount; j++ {
+		exprChild := interp.Child(j)
+		if exprChild == nil {
+			continue
+		}
+		switch exprChild.Type() {
+		case "{", "}", "=", "type_conversion":
+			// punctuation and !r/!s/!a carry no expression
+		case "format_specifier":
+			b.addFormattedParts(node, exprChild)
+		default:
+			if b.isTrivia(exprChild) {
+				continue
+			}
+			fmtValue := NewNode(NodeFormattedValue)
+			fmtValue.Location = b.getLocation(exprChild)
+			fmtValue.Value = b.buildNode(exprChild)
+			node.AddChild(fmtValue)
+		}
+	}
 }
 
 // buildBlock builds a block of statements
